@@ -39,6 +39,7 @@ VARIANTS = [
     {"name": "deep", "deep": True, "files": 2},
     {"name": "rand"},
 ]
+DOTTED = {"name": "dotted", "dotted": True, "files": 2}
 
 
 # ---------------------------------------------------------------------------- the spec's enumeration
@@ -195,6 +196,16 @@ class InprocWorld:
         for k, t in w.tokterm.items():
             self.by_key[w.tkey(t)] = t
         self.tokbykey = {w.tkey(t): w.tok[k] for k, t in w.tokterm.items()}
+        self.by_decl = {}       # body-less declarations that a //go:linkname directive makes denote another entity
+        self.links = []         # (declared symbol, package path, local name, is var)
+        self.exports = []       # (declared symbol, class)
+        for r in w.refs:
+            e = r["ent"]
+            if e["kind"] == "linked":
+                self.by_decl["%s.%s" % (w.path[e["pkg"]], e["name"])] = r["class"]
+                self.links.append((w.linksym(e["target"]), w.path[e["pkg"]], e["name"], e["target"]["kind"] == "global"))
+            if r.get("export") and r["from"] == e.get("pkg"):
+                self.exports.append((w.fname(e), r["class"]))
 
     def _index(self, c):
         w = self.w
@@ -211,6 +222,8 @@ class InprocWorld:
         w = self.w
         syn = f["syn"]
         other = {"kind": "other", "fn": f["fn"], "recv": f["recv"], "targs": f["targs"], "syn": syn}
+        if f["fn"] in self.by_decl:
+            return self.by_decl[f["fn"]]
         if syn == "" or syn.startswith("instance of"):
             lits = [c for c in (f["consts"] or []) if c.startswith("@")]
             if len(lits) != 1:
@@ -258,7 +271,8 @@ def run_inproc(chk, testbin, worlds, judge, stats):
             C.write_module(moddir, files, modname="vmod")
             pk = [{"path": "vmod/reg", "files": ["reg/reg.go"], "world": False}]
             for p in w.pkgs:
-                pk.append({"path": w.path[p], "files": sorted(x for x in files if x.startswith(w.dir_of(p) + "/")), "world": True})
+                pk.append({"path": w.path[p], "files": sorted(x for x in files if x.startswith(w.dir_of(p) + "/") and x.endswith(".go")),
+                           "world": True})
             wid = "ip%d" % n
             f.write(json.dumps({"id": wid, "dir": moddir, "pkgs": pk}) + "\n")
             iws[wid] = InprocWorld(w, moddir)
@@ -284,7 +298,7 @@ def run_inproc(chk, testbin, worlds, judge, stats):
         by_class = collections.defaultdict(list)
         mapped = 0
         for f in o["funcs"]:
-            for ctx, name in f["names"].items():
+            for ctx, name in list(f["names"].items()) + list(f["bound"].items()):
                 if name.startswith("!panic"):
                     raise C.Undecided("naming function panicked on %s in %s: %s" % (f["fn"], ctx, name))
                 c = iw.class_of_fn(f, ctx)
@@ -294,7 +308,7 @@ def run_inproc(chk, testbin, worlds, judge, stats):
                 by_class[G.cj(c)].append((name, ctx, f["wide"], c))
         inv = {v: k for k, v in w.path.items()}
         for g in o["globals"] or []:
-            c = {"kind": "global", "pkg": inv.get(g["pkg"], g["pkg"]), "name": g["var"]}
+            c = iw.by_decl.get(g["pkg"] + "." + g["var"]) or {"kind": "global", "pkg": inv.get(g["pkg"], g["pkg"]), "name": g["var"]}
             by_name[g["name"]].append((c, g["ctx"], g["pkg"] + "." + g["var"]))
             by_class[G.cj(c)].append((g["name"], g["ctx"], True, c))
         for d in o["descs"] or []:
@@ -320,6 +334,20 @@ def run_inproc(chk, testbin, worlds, judge, stats):
             judge.add({"t": "class", "cls": cid(obs[0][3]), "wide": bool(obs[0][2]), "names": [nid[n] for n, _, _, _ in obs]},
                       {"world": o["id"], "variant": w.variant, "binding": "inproc", "class": obs[0][3],
                        "names": [{"name": n, "in": ctx} for n, ctx, _, _ in obs]})
+        # directives: the names the real code bound the declarations to
+        for sym, ppath, local, isvar in iw.links:
+            if isvar:
+                bound = [g["name"] for g in o["globals"] or [] if g["pkg"] == ppath and g["var"] == local]
+            else:
+                bound = [n for f in o["funcs"] if f["fn"] == ppath + "." + local for n in f["bound"].values()]
+            judge.add({"t": "link", "declared": sym, "bound": bound},
+                      {"world": o["id"], "variant": w.variant, "binding": "inproc", "directive": "//go:linkname %s %s" % (local, sym), "bound": bound})
+            stats["inproc_directives"] += 1
+        for sym, c in iw.exports:
+            bound = [n for n, _, _, _ in by_class.get(G.cj(c), [])]
+            judge.add({"t": "link", "declared": sym, "bound": bound},
+                      {"world": o["id"], "variant": w.variant, "binding": "inproc", "directive": "//export %s" % sym, "bound": bound})
+            stats["inproc_directives"] += 1
         # symbol tables of the per-package modules
         defs = collections.defaultdict(list)
         for path, syms in o["modules"].items():
@@ -416,9 +444,14 @@ def run_e2e_program(chk, pi, worlds, judge, stats, neg=False):
         for idx, r in enumerate(w.refs):
             k = (w.gid, idx)
             e = expect[k]
-            judge.add({"t": "reach", "expect": e, "got": got.get(k, "<nothing: the program died before>")},
-                      {"binding": "e2e", "program": pi, "world": w.gid, "variant": w.variant, "ref": idx, "from": r["from"],
-                       "entity": r["ent"], "expected": e, "reached": got.get(k)})
+            det = {"binding": "e2e", "program": pi, "world": w.gid, "variant": w.variant, "ref": idx, "from": r["from"],
+                 "entity": r["ent"], "expected": e, "reached": got.get(k)}
+            if k not in got:
+                # the process died inside this reference: judge it, the references after it were never executed
+                det["died"] = True
+                judge.add({"t": "reach", "expect": e, "got": "<the program died in this call>"}, det)
+                break
+            judge.add({"t": "reach", "expect": e, "got": got[k]}, det)
             stats["e2e_refs"] += 1
     # symbol tables of the per-package objects of this build
     objs = glob.glob(os.path.join(d, "tmp", "*.o"))
@@ -476,13 +509,18 @@ def check(chk):
     stats["llgo_build_s"] = []
     stats["e2e_died"] = []
     # worlds: the same references rendered in different layouts
-    n_ip = 40 if thorough else 6
+    n_ip = 24 if thorough else 5
     ip_worlds = []
     for i in range(n_ip):
         v = dict(VARIANTS[i % len(VARIANTS)])
         ip_worlds.append(G.World("w%d" % i, refs, "%d/%d" % (sd, i), v))
-    n_prog = 6 if thorough else 1
-    per_prog = 3 if thorough else 2
+    # a package whose import path is another package's path + ".T" (in process only: colliding strong symbols would
+    # stop the link of a whole end-to-end program)
+    ip_worlds.append(G.World("w%d" % n_ip, refs, "%d/dotted" % sd, dict(DOTTED)))
+    n_prog = 4 if thorough else 1
+    per_prog = 2
+    if os.environ.get("VERIF_C14_SKIP_E2E") == "1":      # diagnostic knob (mutation experiments): in-process binding only
+        n_prog = 0
     programs = []
     for pi in range(n_prog):
         ws = []
@@ -493,15 +531,18 @@ def check(chk):
     judge = Judge()
     with ThreadPoolExecutor(max_workers=2) as ex:
         fut_bin = ex.submit(C.gotest_compile_injected, "cl", {"zz_verif_c14_test.go": open(HARNESS).read()}, rd, "", True)
-        C.llgo_binary()
-        with ThreadPoolExecutor(max_workers=3 if thorough else 1) as ex2:
-            futs = [ex2.submit(run_e2e_program, chk, pi, ws, judge, stats, pi == 0) for pi, ws in enumerate(programs)]
+        if programs:
+            C.llgo_binary()
+        with ThreadPoolExecutor(max_workers=2) as ex2:
+            futs = [ex2.submit(run_e2e_program, chk, pi, ws, judge, stats) for pi, ws in enumerate(programs)]
             testbin = fut_bin.result()
+            C.log("C14: injected test built at +%.0fs" % (time.time() - chk.t0))
             run_inproc(chk, testbin, ip_worlds, judge, stats)
+            C.log("C14: %d worlds replayed in process at +%.0fs" % (len(ip_worlds), time.time() - chk.t0))
             for f in futs:
                 f.result()
     # negative controls: one corrupted expectation, one invented collision, one invented duplicate definition
-    w0 = programs[0][0]
+    w0 = ip_worlds[0]
     neg_ids = {
         judge.add({"t": "reach", "expect": w0.ident(w0.refs[0]["reach"]) + "#corrupted", "got": w0.ident(w0.refs[0]["reach"])}, {"negative_control": True}),
         judge.add({"t": "name", "name": -1, "classes": [0, 1]}, {"negative_control": True}),
@@ -510,6 +551,7 @@ def check(chk):
         judge.add({"t": "def", "strong": 0, "mergeable": 2, "bodies": ["a", "b"]}, {"negative_control": True}),
         judge.add({"t": "link", "declared": "x", "bound": ["y"]}, {"negative_control": True}),
     }
+    C.log("C14: observations complete at +%.0fs (llgo builds %s s)" % (time.time() - chk.t0, stats["llgo_build_s"]))
     verdict = judge.run(chk, "observations")
     for i in neg_ids:
         if verdict[i]:
@@ -555,7 +597,7 @@ def check(chk):
 def finding_key(rec, d):
     t = rec["t"]
     if t == "reach":
-        return "reach:%s:%s" % (kindtag(d["entity"]), locality(d["entity"], d["from"]))
+        return "reach%s:%s:%s" % ("-died" if d.get("died") else "", kindtag(d["entity"]), locality(d["entity"], d["from"]))
     if t == "name":
         cs = []
         for h in d["holders"]:
@@ -583,6 +625,8 @@ def describe(key, ds):
             len(ds), d["name"], "; ".join("%s (in %s)" % (h["fn"], h["in"]) for h in d["holders"][:4]))
     if ":disagree:" in key:
         return "%d entities with more than one link name, e.g. %s: %s" % (len(ds), json.dumps(d["class"]), d["names"][:4])
+    if key.endswith(":link"):
+        return "%d directives not bound to the declared symbol, e.g. %s is bound to %s" % (len(ds), d["directive"], d["bound"])
     if ":multidef:" in key:
         return "%d symbols with conflicting definitions, e.g. %s: %s" % (len(ds), d["name"], d["definitions"][:4] if "definitions" in d else d.get("linker", "")[-300:])
     return "%d observations rejected" % len(ds)
